@@ -22,6 +22,10 @@ CLAIMED = {
          'todelta = proleptic Gregorian day number for every valid date (BCE, >9999 included); fromdelta o todelta = id and todelta o fromdelta = id on all of Z (instants in microseconds); d + dur - dur = d; d1 + (d2 - d1) = d2; instants injective (order = timeline order); yearMonthDuration addition moves the month count exactly in astronomical years and clamps the day; regenerated days_from_common_era / adjust_day proved against their specifications. Comparison with timezones and adjust-*-to-timezone are judged against instants by the harness (not theorems).',
          'Trusted: Coq kernel; py2coq translator; PyCalendar.v copies of calendar.isleap/leapdays; CPython datetime ordinal arithmetic for years 1..9999 and timedelta normalisation are modelled by the same formulas and validated by correspondence only. No axioms.',
          'DESIGN.md §6 C11'),
+ 'C04': ('Coq proof: generic Pratt parser correctness (pratt_correct, canon_img: EBNF-canonical trees are re-parsed exactly) + verified table checker run by vm_compute on the binding-power table probed from the loaded token classes each run; correspondence of parse trees',
+         'For XPath 2.0/3.0/3.1 every tree derivable by the EBNF precedence/associativity rules over 30 binary operators, prefix +/- and parentheses is exactly what the Pratt loop returns for its token sequence (all trees, unbounded size); the table (lbp, led rbp, nud rbp, non-associativity conflicts) is re-probed from /repo on every run, so a changed binding power breaks table_okb. XPath 1.0 grouping and the completeness of the non-associativity checks are refuted by kernel-checked witnesses (known findings). Partial: lexer, whitespace/comments, .source round trip and hash-seed independence are checked by correspondence/observation (with the alternation-disjointness hypothesis measured), value equality is not modelled; path operators / and // belong to C01.',
+         'Trusted: Coq kernel; gen_c04.py probing (stub parser.expression); C04/Spec.v transcription of the W3C EBNF levels. No axioms.',
+         'DESIGN.md §6 C04'),
 }
 
 NOT_YET = {}
